@@ -296,9 +296,12 @@ class AbsStr:
 class NLStr:
     """Text observable only through its length and the positions of its newlines."""
 
-    def __init__(self, n, newline_positions):
+    def __init__(self, n, newline_positions, other_linebreak_positions=()):
         self.n = n
         self.ps = list(newline_positions)
+        # positions of characters that str.splitlines() also treats as line boundaries but that are NOT "\n"
+        # (form feed, vertical tab, \x1c-\x1e, \x85, U+2028/9): invisible to find("\n")
+        self.qs = list(other_linebreak_positions)
 
     def symlen(self):
         return SymInt(self.n) if not isinstance(self.n, SymInt) else self.n
@@ -316,6 +319,28 @@ class NLStr:
 
     def __len__(self):
         return int(self.symlen())
+
+    def endswith(self, suffix):
+        if suffix != "\n":
+            raise EngineUnsupported("NLStr.endswith only models endswith('\\n')")
+        if not self.ps:
+            return False
+        return SymBool(lift(self.ps[-1]) == lift(self.n) - 1)
+
+    def startswith(self, prefix):
+        raise EngineUnsupported("NLStr.startswith is not modelled")
+
+    def splitlines(self, keepends=False):
+        """Python semantics: boundaries at every "\n" AND at every other line-break character."""
+        breaks = sorted([SymInt(lift(p)) for p in self.ps] + [SymInt(lift(q)) for q in self.qs])  # forks on the order
+        out, prev = [], z3.IntVal(-1)
+        for b in breaks:
+            out.append(AbsStr(SymInt(lift(b) - prev - (0 if keepends else 1))))
+            prev = lift(b)
+        tail = SymInt(lift(self.n) - prev - 1)
+        if bool(tail > 0):
+            out.append(AbsStr(tail))
+        return out
 
     def split(self, sep=None, maxsplit=-1):
         """Exactly len(ps) newlines: K+1 opaque pieces whose lengths follow from the newline positions."""
